@@ -205,8 +205,23 @@ func newDoHServer(answer func(id int, name string, qtype int) ([]byte, int)) *do
 	// the library makes a new HTTP client (and TCP connection) for every DNS query and leaves it idle: close idle
 	// connections quickly, or long runs exhaust file descriptors / ephemeral ports (an environment problem, not a finding)
 	s.Server.Config.IdleTimeout = 30 * time.Millisecond
+	// ... and close them with a reset, so that no TIME_WAIT entry stays behind (10^5 lookups per run would otherwise use up
+	// every local port for a minute, for this and any other process on the machine)
+	s.Server.Listener = resetListener{s.Server.Listener}
 	s.Server.Start()
 	return s
+}
+
+// resetListener: accepted connections are closed with RST (SO_LINGER 0). The test servers only close a connection that
+// has been idle (response delivered) or whose client is gone, so no data is lost by it.
+type resetListener struct{ net.Listener }
+
+func (l resetListener) Accept() (net.Conn, error) {
+	c, err := l.Listener.Accept()
+	if tc, ok := c.(*net.TCPConn); ok && err == nil {
+		tc.SetLinger(0)
+	}
+	return c, err
 }
 
 func (s *dohServer) url() string { return s.URL + "/dns-query" }
